@@ -54,8 +54,12 @@ claim('C15', 'Proof (taint argument by symbolic execution of the real code, mask
       'log lines and exception messages of VideoReader.__init__ / VideoWriter.__init__ + new_writer, and the frame metadata meta.src went through hide_uri_users_and_pwds: structural '
       'induction on the real recursive walk hide_config_pwds (every node kind: str, list, tuple, FilterConfig, nested dict, per-source record), hence every nesting depth. '
       'That the masker itself hides the credential is a BOUNDED exhaustive enumeration over the RFC 3986 grammar (labelled bounded, not proved).', '6-C15')
+claim('C12', 'Proof, on the real cli.common.parse_filters CUT at `filter_id_configs = {}` (the argument-parsing prefix is not under contract) and the real only_mq_addr, over rope-shaped '
+      'configurations of 1..3 filters with symbolic ids, hosts, topics and ports: ids pairwise different (else rejected), automatic tcp outputs >= max(explicit ports)+2, 2 apart, never '
+      'overlapping each other or a user-given port pair, the rewritten source carries the same port / ipc name as the output it binds and exactly one filter binds it, topic/option/ephemeral '
+      'suffixes preserved, explicit addresses passed through. The whole function incl. argument parsing is covered by a BOUNDED native enumeration only (labelled bounded).', '6-C12')
 _todo = 'check not built yet in this session (planned, see DESIGN.md section 6); not claimed until its obligations are discharged'
-for _p in ('C11', 'C12'):
+for _p in ('C11',):
     NA[_p] = _todo
 NA['C06'] = ('liveness under fairness and bounded-time recovery across several processes: not expressible as pre/postconditions or invariants of one call; '
              'termination is not proved by this verifier (DESIGN.md section 7); its safety ingredients are proved under C02/C04/C05')
